@@ -137,8 +137,12 @@ pub fn compute_grid_layout<Tree: LayoutGridContainer>(
         return LayoutOutput::from_outer_size(Size { width, height });
     }
 
-    let get_child_styles_iter =
-        |node| tree.child_ids(node).map(|child_node: NodeId| tree.get_grid_child_style(child_node));
+    // Children with `display: none` do not participate in the grid, so they must not contribute to the size estimate
+    let get_child_styles_iter = |node| {
+        tree.child_ids(node)
+            .map(|child_node: NodeId| tree.get_grid_child_style(child_node))
+            .filter(|style| style.box_generation_mode() != BoxGenerationMode::None)
+    };
     let child_styles_iter = get_child_styles_iter(node);
 
     // 2. Resolve the explicit grid
